@@ -15,6 +15,7 @@ import (
 	"os"
 	"sort"
 	"strings"
+	"time"
 
 	"github.com/NethermindEth/juno/core/felt"
 	"verif/harness/lib"
@@ -319,9 +320,19 @@ func (h *harness) queryRound(s, round int, w *world, r *lib.RNG, sp scenarioPara
 			}
 		}
 	}
-	answers, err := h.drv.AskAll(lines)
+	var answers []string
+	var err error
+	if !lib.WithDeadline(3*time.Minute, func() { answers, err = h.drv.AskAll(lines) }) {
+		h.res.Fatalf("the Lean driver did not answer %d lines within 3 minutes (scenario %d round %d)", len(lines), s, round)
+		lib.Finish(h.f, h.res)
+	}
 	if err != nil {
 		return fmt.Errorf("driver: %w", err)
+	}
+	for i, a := range answers {
+		if a == "bad-op" {
+			h.res.Fatalf("the Lean driver does not understand %q", lines[i])
+		}
 	}
 	for i := 0; i < nOps; i++ {
 		if answers[i] != "ok" {
